@@ -96,7 +96,7 @@ fn newest_source_mtime(root: &Path) -> Option<std::time::SystemTime> {
 fn sylt_bin() -> &'static Result<PathBuf, String> {
     static B: OnceLock<Result<PathBuf, String>> = OnceLock::new();
     B.get_or_init(|| {
-        let bin = PathBuf::from(std::env::var("SYLT_BIN").unwrap_or_else(|_| DEFAULT_SYLT_BIN.to_string()));
+        let bin = PathBuf::from(std::env::var("SYLT_BIN").unwrap_or_else(|_| DEFAULT_SYLT_BIN.replace("/verif", &vcore::verif_root().to_string_lossy())));
         if !bin.is_file() {
             return Err(format!("driver binary {} is absent", bin.display()));
         }
